@@ -36,6 +36,7 @@ type evt struct {
 	Part   int
 	Off    int64
 	Err    string
+	J      int // number of requests the brokers had received when the event was recorded (orders events and requests inside one instant)
 }
 
 type scn struct {
@@ -109,6 +110,9 @@ func (sc *scn) scenario() *qx.Scenario {
 		seq := 0
 		var evs []evt
 		rec := func(e evt) {
+			c.Lock()
+			e.J = len(c.Journal)
+			c.Unlock()
 			mu.Lock()
 			seq++
 			e.Seq, e.At = seq, x.Now()
@@ -343,6 +347,9 @@ func (sc *scn) judge(x *qx.Exec, c *fk.Cluster, st qx.Status, mu *sync.Mutex, ev
 		}
 		for _, t := range r.Topics {
 			for _, p := range t.Partitions {
+				if _, rejected := e.PartErr[fk.TP{Topic: t.Name, Part: int(p.PartitionIndex)}]; rejected {
+					continue // the coordinator answered this partition entry with an error code and did not record it
+				}
 				at := e.At
 				if sc.readMsg {
 					// ReadMessage commits before it hands the message over: the call is judged as a whole,
@@ -375,7 +382,9 @@ func (sc *scn) judge(x *qx.Exec, c *fk.Cluster, st qx.Status, mu *sync.Mutex, ev
 			}
 			ok := false
 			for _, a := range acks {
-				if a.part == ev.Part && a.off >= ev.Off+1 && a.at <= ev.At {
+				// the acknowledged request reached the coordinator before CommitMessages returned (virtual time, and inside
+				// one instant the order in which requests arrived and application events happened)
+				if a.part == ev.Part && a.off >= ev.Off+1 && a.at <= ev.At && a.seq < ev.J {
 					ok = true
 				}
 			}
@@ -611,6 +620,7 @@ func suite(tier string) []qx.SuiteItem {
 	// the many small scenarios of the fetch-fault class first: the large ones share what is left of the time budget
 	// (quick tier: the few cases explored beyond their script come last, so that they are not cut short on a busy machine)
 	var items, tail []qx.SuiteItem
+	items = append(items, pcSuite(tier)...)
 	for _, it := range ffSuite(tier) {
 		if tier != "thorough" && it.Bound > 0 {
 			tail = append(tail, it)
